@@ -3,8 +3,14 @@
 The agent gets only the property text and a scratch worktree — nothing from /verif."""
 import json, sys
 pid = sys.argv[1]; wt = sys.argv[2]
+import glob, os
+prior = []
+for d in sorted(glob.glob(f"/verif/seeded/{pid}-*/meta.json")):
+    try: prior.append(" ".join(str(json.load(open(d)).get("summary","")).split())[:400])
+    except Exception: pass
+ROUND = ("\n\nOther people have already produced the following changes for this property; do NOT repeat them or close variants of them — find different mechanisms, different code locations and different triggering conditions (prefer: interactions between two features of the library, rarely used entry points or options, boundary values, error/cleanup paths, resource reuse across calls, ordering of two concurrent operations):\n" + "\n".join(f"- {x}" for x in prior)) if prior else ""
 p = [json.loads(l) for l in open('/verif/properties.jsonl') if json.loads(l)['id'] == pid][0]
-print(f"""You are testing how well a verification effort can detect regressions in the Go XMPP library mellium/xmpp. You have your own scratch git worktree of the library at {wt} (a detached checkout; work ONLY inside it and inside {wt}_out — do not read or write anything under /verif, do not touch /repo itself). Offline Go environment for every shell call: export GOFLAGS=-mod=mod GOPROXY=off GOSUMDB=off GOTOOLCHAIN=local ; always pass -timeout 120s to go test.
+OUT = (f"""You are testing how well a verification effort can detect regressions in the Go XMPP library mellium/xmpp. You have your own scratch git worktree of the library at {wt} (a detached checkout; work ONLY inside it and inside {wt}_out — do not read or write anything under /verif, do not touch /repo itself). Offline Go environment for every shell call: export GOFLAGS=-mod=mod GOPROXY=off GOSUMDB=off GOTOOLCHAIN=local ; always pass -timeout 120s to go test.
 
 Here is a semantic property that the library is supposed to satisfy:
 
@@ -13,10 +19,11 @@ STATEMENT: {p['statement']}
 QUANTIFIED OVER: {p['quantifier']['text']}
 CODE ANCHORS: {', '.join(p['anchors']['files'])}
 
-Task: produce THREE different, realistic changes to the library source (non-test .go files) each of which BREAKS this property while the library still compiles and the existing test suite still passes (run `cd {wt} && go build ./... && go test -vet=off -count=1 -timeout 300s ./...` — at minimum the packages you touched and the root package must pass; report exactly what you ran). Each change should look like a plausible regression a maintainer could introduce (a refactoring slip, a dropped check, a reordered step, a narrowed condition, an off-by-one, a lock moved), and — importantly — should need something SPECIFIC to manifest: a particular interleaving, a fault or cancellation at a particular point, a multi-step sequence of operations, an unusual input, or two cooperating sites that each look fine alone. Do NOT submit changes that ordinary use would expose at once (e.g. breaking every call), and make the three changes different in kind and location.
+{{ROUND_PLACEHOLDER}}Task: produce THREE different, realistic changes to the library source (non-test .go files) each of which BREAKS this property while the library still compiles and the existing test suite still passes (run `cd {wt} && go build ./... && go test -vet=off -count=1 -timeout 300s ./...` — at minimum the packages you touched and the root package must pass; report exactly what you ran). Each change should look like a plausible regression a maintainer could introduce (a refactoring slip, a dropped check, a reordered step, a narrowed condition, an off-by-one, a lock moved), and — importantly — should need something SPECIFIC to manifest: a particular interleaving, a fault or cancellation at a particular point, a multi-step sequence of operations, an unusual input, or two cooperating sites that each look fine alone. Do NOT submit changes that ordinary use would expose at once (e.g. breaking every call), and make the three changes different in kind and location.
 
 For each change i in 1..3 create the directory {wt}_out/<i>/ containing:
 - patch.diff : `git diff` of the change against the worktree's HEAD (only the library change, not the demonstration), applicable with `git apply`;
 - a demonstration: a Go test file (say where it must be placed, e.g. demo_test.go in package xmpp_test at the repository root) or small program that FAILS with the change applied and PASSES on the unchanged worktree — run it both ways and report the outputs. The demonstration may use anything in the repository (including internal test helpers) and the standard library; for schedule-dependent breaks make it reasonably reliable (loops, the race detector via `go test -race`, or a deterministic forcing trick) and say how reliable it is;
 - meta.json : {{"property": "{pid}", "summary": "...", "needs_to_manifest": "...", "files_touched": [...], "tests_run": "...", "demo_how_to_run": "...", "demo_result_with_patch": "...", "demo_result_without_patch": "..."}}.
 After saving each change, restore the worktree (git checkout -- . && git clean -fd; never use git stash: the stash is shared between all worktrees of this repository) before starting the next, so that each patch is relative to the pristine HEAD. Leave the worktree pristine at the end. Your final message should list the three changes with a one-paragraph description each and the exact commands you used to verify them.""")
+print(OUT.replace("{ROUND_PLACEHOLDER}", (ROUND + "\n\n") if ROUND else ""))
